@@ -337,6 +337,16 @@ func (gt *grpcTransport) Send(_ context.Context, streamID, payload []byte) (
 		return true, ClientStatusNotConnected, err
 	}
 
+	// Send only hands the message to the gRPC layer. A FIN is the last
+	// thing the GBN connection sends before it cancels the context that
+	// this stream was created with, and that resets the stream: what is
+	// still queued then never reaches the mailbox. Half-closing the stream
+	// and waiting for the hashmail server's answer makes sure that it has
+	// taken the FIN.
+	if isGbnFIN(payload) {
+		_, _ = gt.sendStream.CloseAndRecv()
+	}
+
 	return false, ClientStatusConnected, nil
 }
 
